@@ -36,9 +36,11 @@ func newFacts() *Facts {
 }
 
 type factCtx struct {
-	info *types.Info
-	body *ast.BlockStmt // enclosing function body
-	f    *Facts
+	boolExpr map[string]ast.Expr  // boolean facts: the condition …
+	boolFrom map[string]token.Pos // … and the position from which it is known
+	info     *types.Info
+	body     *ast.BlockStmt // enclosing function body
+	f        *Facts
 	// notBoth: pairs (X, Y) with ¬(X ∧ Y) known; oneOf: pairs with X ∨ Y known. Resolved against
 	// the boolean facts at the end: X true gives Y false, X false gives Y true.
 	notBoth [][2]ast.Expr
@@ -152,6 +154,71 @@ func (c *factCtx) assume(cond ast.Expr, truth bool, at token.Pos) {
 		c.f.False[s] = true
 	}
 	c.f.factPos["b:"+s] = at
+	if c.boolExpr == nil {
+		c.boolExpr, c.boolFrom = map[string]ast.Expr{}, map[string]token.Pos{}
+	}
+	from := at
+	if cond.End() > from {
+		from = cond.End()
+	}
+	c.boolExpr[s], c.boolFrom[s] = cond, from
+}
+
+// dropStale removes the boolean facts about a variable that is assigned between
+// the place the fact was established and the target: `if strings.HasPrefix(s,
+// "-") { return }; s = strings.TrimLeft(s, "0")` says nothing about the new s.
+func (c *factCtx) dropStale(target ast.Node) {
+	if len(c.boolExpr) == 0 || c.body == nil || target == nil {
+		return
+	}
+	type asg struct {
+		obj      types.Object
+		pos, end token.Pos
+	}
+	var asgs []asg
+	ast.Inspect(c.body, func(n ast.Node) bool {
+		switch x := n.(type) {
+		case *ast.AssignStmt:
+			for _, l := range x.Lhs {
+				if id, ok := core.Unparen(l).(*ast.Ident); ok {
+					if o := c.info.Uses[id]; o != nil {
+						asgs = append(asgs, asg{o, x.Pos(), x.End()})
+					}
+				}
+			}
+		case *ast.IncDecStmt:
+			if id, ok := core.Unparen(x.X).(*ast.Ident); ok {
+				if o := c.info.Uses[id]; o != nil {
+					asgs = append(asgs, asg{o, x.Pos(), x.End()})
+				}
+			}
+		}
+		return true
+	})
+	if len(asgs) == 0 {
+		return
+	}
+	for s, e := range c.boolExpr {
+		from := c.boolFrom[s]
+		stale := false
+		ast.Inspect(e, func(n ast.Node) bool {
+			if id, ok := n.(*ast.Ident); ok {
+				if o := c.info.Uses[id]; o != nil {
+					for _, a := range asgs {
+						// the statement the target is part of assigns after the target is evaluated
+						if a.obj == o && a.pos > from && a.pos < target.Pos() && a.end < target.End() {
+							stale = true
+						}
+					}
+				}
+			}
+			return !stale
+		})
+		if stale {
+			delete(c.f.True, s)
+			delete(c.f.False, s)
+		}
+	}
 }
 
 func negate(op token.Token) token.Token {
@@ -443,6 +510,7 @@ func FactsAt(info *types.Info, body *ast.BlockStmt, target ast.Node) *Facts {
 			}
 		}
 	}
+	c.dropStale(target)
 	c.resolvePairs()
 	return c.f
 }
